@@ -2,6 +2,7 @@
 \* outcome and cell value for Rule = "code" (conformance information, not a verdict)
 CONSTANTS
   Rule = "code"
+  StoreRead = "snapshot"
   Treadmill = FALSE
   Record = TRUE
   MaxBlock = 3
